@@ -234,6 +234,9 @@ def cache_faults(ctx):
                   ("trunc-last", good[:-1]), ("appended", good + b"\x00garbage"), ("garbage", bytes(rng.randrange(256) for _ in range(200))),
                   ("version-field", good[:4] + bytes([good[4] ^ 0xFF]) + good[5:]), ("magic", b"\x00" + good[1:]),
                   ("intact", good)]
+        # every byte of the header on its own (magic, version, platform, crc, length fields)
+        for k in range(0, min(40, n)):
+            faults.append((f"header-byte@{k}", good[:k] + bytes([good[k] ^ 0x01]) + good[k + 1:]))
         for k in range(30 if th else 6):
             i = rng.randrange(n)
             faults.append((f"bitflip@{i}", good[:i] + bytes([good[i] ^ (1 << rng.randrange(8))]) + good[i + 1:]))
